@@ -72,7 +72,262 @@ fn gen_patterns(rng: &mut jjv::Rng, t: &Tree) -> Vec<P> {
     }
 }
 
+/// A whole session inside ONE locked working copy (no reload of the state between the
+/// steps): snapshot -> set_sparse_patterns(P1) (+ snapshot) -> edits of tracked files inside
+/// and outside P1 -> snapshot -> [optionally finish and lock again] -> check_out(T2) ->
+/// set_sparse_patterns(P2) (+ snapshot) -> finish; then a snapshot through a freshly loaded
+/// working copy. Every step records the tree and the patterns current at that moment.
+/// `fixed` = the corpus session.
+fn run_session(rng: &mut jjv::Rng, fixed: bool) -> (String, Vec<String>, String, bool) {
+    use jj_lib::working_copy::SnapshotOptions;
+    use pollster::FutureExt as _;
+    let file = |c: &str, x: bool| TVal::File(c.to_string(), x);
+    let (t, t2, p1, p2): (Tree, Tree, Vec<P>, Vec<P>) = if fixed {
+        let pth = |s: &str| -> P { s.split('/').map(|c| c.to_string()).collect() };
+        let mut t = Tree::new();
+        t.insert(pth("a/x"), file("1", false));
+        t.insert(pth("a/y"), file("2", true));
+        t.insert(pth("b/z"), file("3", false));
+        t.insert(pth("c"), file("4", false));
+        let mut t2 = t.clone();
+        t2.insert(pth("a/x"), file("one", false));
+        t2.insert(pth("b/z"), file("three", false));
+        t2.insert(pth("b/new"), file("n", false));
+        t2.remove(&pth("c"));
+        (t, t2, vec![pth("a")], vec![pth("b"), pth("a/y")])
+    } else {
+        let mut t = gen_tree(rng, 0);
+        for _ in 0..2 {
+            for (p, v) in gen_tree(rng, 0) {
+                tree_insert(&mut t, p, v);
+            }
+        }
+        let t2 = mutate_tree(rng, &t, 0);
+        let p1 = gen_patterns(rng, &t);
+        let p2 = gen_patterns(rng, &t2);
+        (t, t2, p1, p2)
+    };
+    // untracked entries must not be in the way of either tree
+    let untracked: Vec<Edit> = if fixed {
+        vec![]
+    } else {
+        gen_untracked(rng, &t)
+            .into_iter()
+            .filter(|e| {
+                let (Edit::WriteFile(p, ..) | Edit::MkDir(p) | Edit::Symlink(p, _) | Edit::Remove(p)) = e;
+                !t2.keys().any(|q| comparable(p, q))
+            })
+            .collect()
+    };
+    let split = !fixed && rng.chance(1, 3);
+
+    let mut ws = Ws::new();
+    for e in &untracked {
+        apply_edit(&ws.root, e);
+    }
+    let disk_u = list_disk(&ws.root);
+    let store = ws.store();
+    let tm = write_tree(&store, &t);
+    let r0 = outcome(ws.check_out(&tm));
+    assert!(matches!(r0, Outcome::Ok(_)), "initial checkout: {r0:?}");
+    let commit2 = testutils::commit_with_tree(&store, write_tree(&store, &t2));
+    let op_id = ws.tw.repo.op_id().clone();
+    let root = ws.root.clone();
+
+    let mut steps: Vec<String> = vec![];
+    let mut cur_tree = t.clone();
+    let mut clean = true;
+    let mut panicked = false;
+    let mut moved = false;
+    let options = || SnapshotOptions {
+        start_tracking_matcher: &jj_lib::matchers::NothingMatcher,
+        ..testutils::empty_snapshot_options()
+    };
+    {
+        let workspace = &mut ws.tw.workspace;
+        let mut locked = workspace.start_working_copy_mutation().block_on().unwrap();
+        // returns false when the session has to stop (error or panic)
+        macro_rules! snap {
+            () => {{
+                let sp: Vec<P> = locked.locked_wc().sparse_patterns().unwrap().iter().map(|p| from_repo_path(p)).collect();
+                let d = list_disk(&root);
+                let r = jjv::catch(|| locked.locked_wc().snapshot(&options()).block_on().ok().map(|(t, _)| t))
+                    .flatten()
+                    .as_ref()
+                    .and_then(read_tree);
+                steps.push(format!(
+                    "(C27Chk.SeSnap {} {} {} {})",
+                    coq_tree(&cur_tree),
+                    coq_paths(&sp),
+                    coq_disk(&d),
+                    coq::opt(r.as_ref(), coq_tree)
+                ));
+                match r {
+                    Some(tr) => {
+                        cur_tree = tr;
+                        true
+                    }
+                    None => false,
+                }
+            }};
+        }
+        macro_rules! sparse {
+            ($new:expr) => {{
+                let new: Vec<P> = $new;
+                let old: Vec<P> = locked.locked_wc().sparse_patterns().unwrap().iter().map(|p| from_repo_path(p)).collect();
+                let d0 = list_disk(&root);
+                let pats: Vec<jj_lib::repo_path::RepoPathBuf> = new.iter().map(to_repo_path).collect();
+                fs_trace_start();
+                let res = outcome(jjv::catch(|| locked.locked_wc().set_sparse_patterns(pats).block_on()));
+                let calls = fs_trace_stop(&root);
+                panicked |= res == Outcome::Panic;
+                moved |= matches!(&res, Outcome::Ok(s) if s.added_files + s.removed_files > 0);
+                let d1 = list_disk(&root);
+                let ok = matches!(res, Outcome::Ok(_));
+                let after: Vec<P> = locked.locked_wc().sparse_patterns().unwrap().iter().map(|p| from_repo_path(p)).collect();
+                // a snapshot right after (only when the call succeeded)
+                let tree_before = cur_tree.clone();
+                let snap = if ok {
+                    jjv::catch(|| locked.locked_wc().snapshot(&options()).block_on().ok().map(|(t, _)| t))
+                        .flatten()
+                        .as_ref()
+                        .and_then(read_tree)
+                } else {
+                    None
+                };
+                steps.push(format!(
+                    "(C27Chk.SeSparse (C27Chk.mk_sstep {} {} {} {} [] {} {} {} {} [] true {}) {})",
+                    coq_tree(&tree_before),
+                    coq_paths(&old),
+                    coq_paths(&new),
+                    coq_disk(&d0),
+                    coq::b(clean),
+                    coq_outcome(&res),
+                    coq_calls(&calls),
+                    coq_disk(&d1),
+                    coq::opt(snap.as_ref(), coq_tree),
+                    coq_paths(&after)
+                ));
+                if let Some(tr) = snap {
+                    cur_tree = tr;
+                }
+                ok && cur_tree == cur_tree
+            }};
+        }
+        'session: {
+            if !snap!() {
+                break 'session;
+            }
+            if !sparse!(p1.clone()) {
+                break 'session;
+            }
+            // edits of tracked files inside and outside the current patterns; every content
+            // edit changes the size, so that it cannot hide behind an equal mtime
+            let cur_sp: Vec<P> = locked.locked_wc().sparse_patterns().unwrap().iter().map(|p| from_repo_path(p)).collect();
+            let keys: Vec<P> = cur_tree.keys().cloned().collect();
+            let n_edits = if fixed { 0 } else { rng.below(4) };
+            let mut edits: Vec<Edit> = vec![];
+            if fixed {
+                let pth = |s: &str| -> P { s.split('/').map(|c| c.to_string()).collect() };
+                edits.push(Edit::WriteFile(pth("a/x"), "edited inside".into(), false));
+                edits.push(Edit::WriteFile(pth("b/z"), "edited outside".into(), false));
+                edits.push(Edit::WriteFile(pth("c"), "edited outside too".into(), true));
+            }
+            for _ in 0..n_edits {
+                if keys.is_empty() {
+                    break;
+                }
+                let p = rng.pick(&keys).clone();
+                let inside = matches_sparse(&cur_sp, &p);
+                edits.push(match rng.below(3) {
+                    0 if inside => Edit::Remove(p),
+                    1 => Edit::WriteFile(p, "edited-with-a-new-size".into(), true),
+                    _ => Edit::WriteFile(p, "edited content".into(), false),
+                });
+            }
+            for e in &edits {
+                apply_edit(&root, e);
+                clean = false;
+            }
+            if !snap!() {
+                break 'session;
+            }
+            if split {
+                // across finish: the state is saved and the next mutation starts from it
+                if jjv::catch(|| locked.finish(op_id.clone()).block_on().unwrap()).is_none() {
+                    panicked = true;
+                    break 'session;
+                }
+                locked = workspace.start_working_copy_mutation().block_on().unwrap();
+            }
+            // check out another tree under the current patterns
+            {
+                let sp: Vec<P> = locked.locked_wc().sparse_patterns().unwrap().iter().map(|p| from_repo_path(p)).collect();
+                let d0 = list_disk(&root);
+                fs_trace_start();
+                let res = outcome(jjv::catch(|| locked.locked_wc().check_out(&commit2).block_on()));
+                let calls = fs_trace_stop(&root);
+                panicked |= res == Outcome::Panic;
+                let d1 = list_disk(&root);
+                steps.push(format!(
+                    "(C27Chk.SeCheckout {} {} {} {} {} {} {})",
+                    coq_tree(&cur_tree),
+                    coq_paths(&sp),
+                    coq_disk(&d0),
+                    coq_tree(&t2),
+                    coq_outcome(&res),
+                    coq_calls(&calls),
+                    coq_disk(&d1)
+                ));
+                if !matches!(res, Outcome::Ok(_)) {
+                    break 'session;
+                }
+                cur_tree = t2.clone();
+            }
+            if !sparse!(p2.clone()) {
+                break 'session;
+            }
+            if !snap!() {
+                break 'session;
+            }
+            let _ = jjv::catch(|| locked.finish(op_id.clone()).block_on().unwrap());
+            // through a freshly loaded working copy
+            let mut locked2 = workspace.start_working_copy_mutation().block_on().unwrap();
+            let sp: Vec<P> = locked2.locked_wc().sparse_patterns().unwrap().iter().map(|p| from_repo_path(p)).collect();
+            let d = list_disk(&root);
+            let r = jjv::catch(|| locked2.locked_wc().snapshot(&options()).block_on().ok().map(|(t, _)| t))
+                .flatten()
+                .as_ref()
+                .and_then(read_tree);
+            steps.push(format!(
+                "(C27Chk.SeSnap {} {} {} {})",
+                coq_tree(&cur_tree),
+                coq_paths(&sp),
+                coq_disk(&d),
+                coq::opt(r.as_ref(), coq_tree)
+            ));
+        }
+    }
+    let shape = format!(
+        "session n={}{}{}{}",
+        steps.len().min(9),
+        if clean { " clean" } else { " edited" },
+        if split { " split" } else { "" },
+        if panicked { " panic" } else { "" }
+    );
+    let _ = moved;
+    (coq_disk(&disk_u), steps, shape, panicked)
+}
+
 fn run_case(_i: usize, mut rng: jjv::Rng) -> CaseOut {
+    if _i == 0 || rng.chance(7, 20) {
+        let (disk_u, steps, shape, panicked) = run_session(&mut rng, _i == 0);
+        let term = coq::app(
+            "C27Chk.mk_case",
+            &[disk_u, "[]".to_string(), coq::list(steps.iter(), |s| s.clone())],
+        );
+        return CaseOut { term, nontrivial: steps.len() >= 5, shape, panicked };
+    }
     let mut t = gen_tree(&mut rng, 0);
     for _ in 0..2 {
         let extra = gen_tree(&mut rng, 0);
@@ -154,7 +409,10 @@ fn run_case(_i: usize, mut rng: jjv::Rng) -> CaseOut {
             break;
         }
     }
-    let term = coq::app("C27Chk.mk_case", &[coq_disk(&disk_u), coq::list(steps.iter(), |s| s.clone())]);
+    let term = coq::app(
+        "C27Chk.mk_case",
+        &[coq_disk(&disk_u), coq::list(steps.iter(), |s| s.clone()), "[]".to_string()],
+    );
     let shape = format!(
         "steps={}{}{}{}",
         steps.len(),
